@@ -450,10 +450,12 @@ class Module(HasAccessibles):
         if cfg is not None:
             try:
                 for propname, propvalue in cfg.items():
-                    if propname in {'value', 'default', 'constant'}:
-                        # these properties have ValueType(), but should be checked for datatype
-                        accessible.datatype(cfg[propname])
                     accessible.setProperty(propname, propvalue)
+                # these properties have ValueType(), but should be checked for datatype:
+                # only after all properties (which may change the datatype) are applied
+                for propname in ('value', 'default', 'constant'):
+                    if propname in cfg:
+                        accessible.datatype(cfg[propname])
             except KeyError:
                 self.errors.append(f"'{name}' has no property '{propname}'")
             except BadValueError as e:
